@@ -205,10 +205,18 @@ fn name_b() -> Name {
   Name::from("b")
 }
 
+/// context types built from pairwise different names that ended up with fewer entries (the ordering of names disagrees with
+/// their equality); read and reset by the probe mode
+pub static LOST_CONTEXT_ENTRIES: std::sync::atomic::AtomicU64 = std::sync::atomic::AtomicU64::new(0);
+
 fn ctx_type(entries: Vec<(Name, FeelType)>) -> FeelType {
   let mut m = BTreeMap::new();
+  let texts: BTreeSet<String> = entries.iter().map(|(k, _)| k.to_string()).collect();
   for (k, v) in entries {
     m.insert(k, v);
+  }
+  if m.len() != texts.len() {
+    LOST_CONTEXT_ENTRIES.fetch_add((texts.len() - m.len()) as u64, std::sync::atomic::Ordering::SeqCst);
   }
   FeelType::Context(m)
 }
@@ -1195,6 +1203,10 @@ pub fn op_types(case: &J) -> J {
         equiv.push(r2);
         rconf.push(r3);
         requiv.push(r4);
+      }
+      j["lost_context_entries"] = json!(LOST_CONTEXT_ENTRIES.swap(0, std::sync::atomic::Ordering::SeqCst));
+      if case.get("no_matrices").and_then(|v| v.as_bool()).unwrap_or(false) {
+        return j;
       }
       j["text"] = json!(u.iter().map(|t| t.to_string()).collect::<Vec<_>>());
       j["is_conformant"] = json!(conf);
